@@ -22,14 +22,21 @@ P("C09",
              "connection system for x (x's ports as a sub-list of the global ports, x's scheduler, x's pending ticks), so the invariant "
              "and clause 1 carry over to the executable model with no checked hypothesis: the engine contract (nothing dispatched before "
              "the current time or past a pending tick; component events primary, connection events secondary) is proved an invariant of "
-             "the model's own queues (c09_engine_contract_invariant). c09_world_projects_one_connection is the special case. PARTIAL: the "
-             "projection onto the draining-component system (clause 2) is not proved; there the link is by shared definitions.",
+             "the model's own queues (c09_engine_contract_invariant). c09_world_projects_one_connection is the special case. c09_component_projects "
+             "(C09/Drain.v, ProjectK.v) is the same for clause 2: for every harness-built world and every component k that drains its "
+             "inputs (one drain/relay entry per port; no drain limit for an event-driven k, none or >= 1 for a ticking k), every "
+             "un-halted run of the executable model is a run of the abstract draining-component system estep for k (k's incoming "
+             "buffers, scheduler / pendingWakeup, pending events; the activation split into the individual RetrieveIncoming calls; "
+             "everything else environment), so its invariant holds (c09_draining_component_steps_clean) and k's incoming buffers are "
+             "all empty when no event of k is pending at the end; again with no checked hypothesis. Not covered: a scripted component "
+             "that does not drain (drain limit 0 on a ticking one, any limit on an event-driven one) is outside clause 2; the coarse "
+             "dstep system of c09_draining_component_clean is kept as an abstract statement and is not the target of a projection.",
   level_note="Trusted: Coq kernel + vm_compute; the Go harness (builds the topology with the real API, scripted Ticker / "
              "EventProcessor mirroring C09.Model.activate, engine BeforeEvent hook for the trace); the hand-written world model, tied "
              "by exact equality of the full (time, handler) trace and of every port's final state on 500 (quick) random topologies. "
              "The abstract connection-in-environment system of the invariant proof shares tick/port/scheduler definitions with the "
              "executable model; that runs of the executable model are runs of the abstract connection system is a theorem "
-             "(c09_world_projects); for the abstract draining-component system it is by construction.",
+             "(c09_world_projects), and so is the same for the abstract draining-component system (c09_component_projects).",
   assumptions=["all handlers run on the serial engine; clock periods divide 10^12 ps; times stay far below 2^64 (no wrap: C42)",
                "every port has an owner and is plugged into exactly one direct connection; port names are distinct",
                "scripted components only: a component's activation = fire due timers, drain, flush (C09/Model.v activate); "
